@@ -2,7 +2,7 @@
    Tournament selection keeps the fittest and builds a well-formed generation. *)
 From Coq Require Import List Arith ZArith QArith.
 Import ListNotations.
-From AgileV Require Import Base.Prelude C05.Model C05.Proofs.
+From AgileV Require Import Base.Prelude C05.Model C05.Proofs C05.SortModel C05.SortProofs C05.HeapModel C05.HeapProofs C05.PinnedModel C05.PinnedProofs C05.Check.
 Local Open Scope nat_scope.
 
 (* np.argsort(x).argsort() with a stable sort is a valid ranking: a permutation of 0..n-1 that is
@@ -111,6 +111,78 @@ Theorem indices_distinct_over_generations :
 Proof. exact @generations_lemma. Qed.
 Print Assumptions indices_distinct_over_generations.
 
+
+(* over the whole history of populations ([trace]: before the first generation, after the first, ...):
+   an index handed out as fresh in some generation never occurs in any earlier population *)
+Theorem fresh_never_reused :
+  forall (P : Type) (rkf : list Q -> list nat) c (gs : list (list (list nat) * list (list Q))),
+  0 < psize c -> forall pop : list (agent P), pop <> [] ->
+  forall g1 g2 p1 p2, g1 < g2 ->
+    nth_error (trace rkf c pop gs) g1 = Some p1 -> nth_error (trace rkf c pop gs) g2 = Some p2 ->
+    forall x, In x (fresh_of c p2) -> ~ In x (map a_index p1).
+Proof. exact @fresh_never_reused_lemma. Qed.
+Print Assumptions fresh_never_reused.
+
+(* the literal transcription of np.argsort(x, kind="stable").argsort() (stable insertion sort of the
+   positions, then the inverse permutation) equals the counting definition of the ranks *)
+Theorem argsort_argsort_is_rank : forall m : list Q, ranks_lit m = ranks m.
+Proof. exact ranks_lit_eq. Qed.
+Print Assumptions argsort_argsort_is_rank.
+
+
+
+(* selection invents no fitness: no member of the new generation has a window mean above the elite's *)
+Theorem elite_dominates_generation : forall (P : Type) rk c (pop : list (agent P)) draws e np,
+  valid_ranking (means c pop) rk -> select_with rk c pop draws = Some (e, np) ->
+  forall child, In child np ->
+    (mean_last (eval_loop c) (a_fitness child) <= mean_last (eval_loop c) (a_fitness e))%Q.
+Proof. exact @elite_dominates_lemma. Qed.
+Print Assumptions elite_dominates_generation.
+
+(* ---- ownership level (HeapModel.v): agents own mutable objects in a heap; clone allocates ---- *)
+
+(* the old population is left untouched: select writes no object that existed before the call, so
+   every old agent (index, fitness list, every cell) reads exactly as before *)
+Theorem old_untouched : forall rk c pop draws h e np h',
+  wf_pop h pop -> select_h rk c pop draws h = Some (e, np, h') ->
+  (forall l, l < next h -> store h' l = store h l) /\
+  (forall a, In a pop -> abs h' a = abs h a).
+Proof. exact old_untouched_lemma. Qed.
+Print Assumptions old_untouched.
+
+(* the elite and all members own fresh objects, pairwise disjoint and disjoint from the old ones *)
+Theorem copies_are_fresh : forall rk c pop draws h e np h',
+  wf_pop h pop -> select_h rk c pop draws h = Some (e, np, h') ->
+  NoDup (concat (map owned (e :: np))) /\
+  (forall l, In l (concat (map owned (e :: np))) -> next h <= l) /\
+  (forall a l, In a pop -> In l (owned a) -> ~ In l (concat (map owned (e :: np)))).
+Proof. exact copies_are_fresh_lemma. Qed.
+Print Assumptions copies_are_fresh.
+
+(* reading values off the heap gives exactly the value-level model, so every theorem above
+   (elite, winners, size, indices, faithful copies) holds of the ownership-level select as well *)
+Theorem select_h_refines : forall rk c pop draws h e np h',
+  wf_pop h pop -> select_h rk c pop draws h = Some (e, np, h') ->
+  select_with rk c (map (abs h) pop) draws = Some (abs h' e, map (abs h') np).
+Proof. exact select_h_refines_lemma. Qed.
+Print Assumptions select_h_refines.
+
+
+(* ---- pinned (pre-fix 72877d1) clone: optimizer state referenced, not copied ---- *)
+(* [select_h_gen] is select with the clone operation as a parameter; with the repaired clone it is
+   the model all theorems above are about ... *)
+Theorem select_h_gen_repaired_is_select_h : forall rk c pop draws h,
+  select_h_gen hclone rk c pop draws h = select_h rk c pop draws h.
+Proof. exact select_h_gen_hclone. Qed.
+Print Assumptions select_h_gen_repaired_is_select_h.
+
+(* ... and with the pinned clone [copies_are_fresh] fails: a member owns an object of its parent *)
+Theorem pinned_clone_shares_refuted :
+  exists e np h', select_h_gen (hclone_pinned 1) [0; 1] pin_cfg pin_pop [[0]] pin_heap = Some (e, np, h') /\
+    exists a l, In a pin_pop /\ In l (owned a) /\ In l (concat (map owned (e :: np))).
+Proof. exact pinned_clone_shares. Qed.
+Print Assumptions pinned_clone_shares_refuted.
+
 (* ---- non-vacuity: concrete populations with ties, negative and unequal-length histories ---- *)
 Definition ex_pop : list (agent nat) :=
   [ {| a_index := 4; a_fitness := [1; 3]%Q;            a_body := 0 |};
@@ -151,4 +223,17 @@ Proof.
     rewrite forallb_forall in D. specialize (D i (proj2 (in_seq _ _ _) (conj (Nat.le_0_l _) Hi))).
     rewrite forallb_forall in D. specialize (D j (proj2 (in_seq _ _ _) (conj (Nat.le_0_l _) Hj))).
     apply Qltb_lt in Hlt. rewrite Hlt in D. apply Nat.ltb_lt. exact D.
+Qed.
+
+Example ex_argsort : argsort_stable [2; 2; (9#2); (-1)]%Q = [3; 0; 1; 2] /\ ranks_lit [2; 2; (9#2); (-1)]%Q = [1; 2; 3; 0].
+Proof. split; vm_compute; reflexivity. Qed.
+
+Example ex_heap :
+  let '(hp, h) := build {| next := 0; store := fun _ => None |} ex_pop in
+  wf_pop h hp /\ heap_verdict ex_cfg ex_pop [[0; 1]; [3; 3]; [1; 2]] = Some (false, false).
+Proof.
+  cbn [build ex_pop alloc]. split; [|vm_compute; reflexivity].
+  intros a Ha l Hl. cbn in Ha.
+  repeat (destruct Ha as [<-|Ha]; [cbn in Hl; cbn; repeat (destruct Hl as [<-|Hl]; [repeat constructor|]); destruct Hl|]).
+  destruct Ha.
 Qed.
